@@ -123,7 +123,8 @@ def wave_case(res, case):
         alloc = alloc or n
         sim = W.make_sim(c, dl, alloc, caps=caps, reuse=reuse, strip=strip, cuda=cuda, a_ctrl=a_ctrl)
         if mode is not None:
-            sim.simctl_int[1] = mode
+            if np.ndim(mode): sim.simctl_int[1, :n] = mode
+            else: sim.simctl_int[1] = mode
             if datasets is not None: sim.simctl_int[0, :n] = datasets
         else:
             seed = 0
@@ -261,6 +262,22 @@ def wave_case(res, case):
                 l = int(np.argwhere(got != exp)[0][-1])
                 res.violation(f'{key0}/dataset-mode1-v{variant}g{int(cuda)}', case, f'per-lane dataset selection: lane {l} (dataset {sel[l]}) differs from simulating with that dataset alone {nl}')
         res.count('cfg_dataset')
+    # the selection method itself is a per-lane setting: lanes that take the global dataset (method 0, by seed) beside lanes with their own
+    for variant in range(2 if tier == 'quick' else 6):
+        modes = ((np.arange(n) // (1 + variant // 2) + variant) % 2).astype(np.int32)
+        sel = ((np.arange(n) * (variant + 2) + rot) % 3).astype(np.int32)
+        gseed = (variant + rot) % 3
+        cuda = bool(variant % 2)
+        sim, _ = run(dl=d3, mode=modes, datasets=sel, seed=gseed, cuda=cuda)
+        res.evals += 1
+        got = ports(sim)
+        if obs:
+            eff = np.where(modes == 0, gseed, sel)
+            exp = np.stack([singles[int(eff[l])][:, :, l] for l in range(n)], axis=-1)
+            if not np.array_equal(got, exp):
+                l = int(np.argwhere(got != exp)[0][-1])
+                res.violation(f'{key0}/dataset-mixed-v{variant}g{int(cuda)}', case, f'mixed selection methods: lane {l} (method {modes[l]}, own dataset {sel[l]}, global {gseed}) differs from simulating with dataset {eff[l]} alone {nl}')
+        res.count('cfg_dataset_mixed')
     # accumulation buffer across code paths / reuse / lanes
     ab, _ = run(a_ctrl=actrl)
     ab0 = np.asarray(ab.abuf).copy()
@@ -280,7 +297,7 @@ def wave_case(res, case):
 
 
 def finish(agg, tier):
-    need = ['cfg_opt', 'cfg_alloc', 'cfg_perm', 'cfg_sims', 'cfg_dataset', 'cfg_abuf', 'cfg_reuse', 'logic_cases']
+    need = ['cfg_opt', 'cfg_alloc', 'cfg_perm', 'cfg_sims', 'cfg_dataset', 'cfg_dataset_mixed', 'cfg_abuf', 'cfg_reuse', 'logic_cases']
     missing = [k for k in need if not agg.counters.get(k)]
     if missing: raise common.HarnessError(f'vacuity guard: {missing} zero')
     return {}
